@@ -32,7 +32,13 @@ DETECTION = {
  "S27": ("C12", "quick", "thorough only at first (the starknet cairo_level_tests corpus has several circuits); quick since the circuits project (3 circuit descriptors): CASM differs with the H2 hash seed, reproducibly"),
  "S28": ("C12", "quick", "missed at first (no executables in the corpus); caught after the executables project (same-named #[executable] functions in three modules, executable plugin enabled through a marker in cairo_project.toml)"),
  "S29": ("C12", "quick", "std HashSet seeded by the OS: not under the H2 seam. First run: the thorough self-test called it a harness error. Now the errors project has a method-not-found error with candidates from two crates; level 1 reports the difference (via the re-executed known-finding replay, whose extra differing entry flow.cairo:E0002 the list does not explain) and replays retry up to 10 fresh processes because such a difference shows in about half of them"),
- "S20": ("C12", "missed", "NOT detected. A process-wide static std Mutex taken with try_lock around a pure computation: contention needs an OS preemption inside a critical section that contains no synchronisation point shuttle controls (level 2 interleaves only at salsa's sync points; level 1 tasks are atomic). Before level-1 runs were isolated in child processes the harness's own worker threads contended on that static and produced a difference that did not replay (reported as a harness error, exit 2) - which is why every run now executes in its own process."),
+ "S30": ("C13", "thorough", "missed at first (no edit flips an attribute argument); the oracle sees it (manual 3-op history: #[inline(always)] -> #[inline(never)] on pipeline::hashing::small gives stale Sierra); caught by thorough after the edit kind change_attribute (double weight), inline attributes in three templates and 'gentle' histories that stay near compiling programs"),
+ "S31": ("C13", "thorough", "comment/blank line above a function with a use-after-move: the notes of the lowering diagnostic keep the old line:column"),
+ "S32": ("C13", "quick", "missed at first: the only recursive types were constructed and matched elsewhere, so changing them broke the build and the Sierra was never compared; caught after pass-through-only recursive enums (pipeline::recursive::Chain/Rose), the edit kind add_variant_or_member and gentle histories"),
+ "S33": ("C12", "quick", "missed at first (no two destructors meeting at one program point); caught after pipeline got dtypes/uses_da/uses_db/uses_both (two never-inlined Destruct impls, values dropped at the same point), by the warm-up permutation alone (2 workers, no prefix)"),
+ "S34": ("C12", "quick", "level 1, history prefix compiling one caller first"),
+ "S35": ("C12", "quick", "missed at first (every signature type also occurred in some libfunc); caught after pipeline got three signature-only empty structs in three modules: type declaration order follows interning order under a 2-worker warm-up"),
+ "S20": ("C12", "thorough", "missed at first: a process-wide static std Mutex taken with try_lock around a pure computation; contention needs a preemption inside a critical section that contains no synchronisation point shuttle controls. Caught by thorough since level 2 has the allocator-driven preemption seam (a task can lose the processor k allocations after a query event): Sierra of the circuits project differs under a PCT/random schedule with 8 workers, replayable. Before level-1 runs were isolated in child processes the harness's own worker threads contended on that static and produced a difference that did not replay (reported as a harness error, exit 2) - which is why every run now executes in its own process."),
 }
 for d in sorted(glob.glob(os.path.join(ROOT, "seeded", "S*"))):
     sid = os.path.basename(d)[:3]
